@@ -73,6 +73,21 @@ func (c18) Generate(seed uint64, tier string, index int) any {
 			ms.Sessions = append(ms.Sessions, s)
 		}
 		ms.Tr = g.TransportFor(12, int64(n)*2*treeBytes(&ms.Src))
+		if !race && g.R.Intn(3) == 0 {
+			// truly concurrent handlers (the scheduled mode runs one party at a
+			// time between transport operations): many directories to create,
+			// several uploads of identical content to the identical fresh target
+			ms.Free = true
+			ms.Src = fstree.Tree{}
+			nd := 40 + g.R.Intn(160)
+			for i := 0; i < nd; i++ {
+				ms.Src.Entries = append(ms.Src.Entries, fstree.Entry{Path: fstree.Name(fmt.Sprintf("d%03d/e%d/f%d", i%50, i%7, i%3)), Type: "d", Perm: 0o755, Mtime: 1_500_000_000})
+			}
+			ms.Sessions = nil
+			for i := 0; i < 4+g.R.Intn(8); i++ {
+				ms.Sessions = append(ms.Sessions, MSess{Kind: "push-same", CapCS: 65536, CapSC: 65536, Opts: []string{"-rlptD"}})
+			}
+		}
 		return &C18Scenario{Mode: "multi", Multi: ms}
 	}
 	// termination: capacity matrix x chunking x bias x stalls x size mixes
@@ -149,6 +164,21 @@ func (c18) Run(t *testing.T, scenario any, job *Job, res *Result) {
 		}
 		if s.Panic != "" && res.Violation == nil {
 			res.Violate("panic", panicSignature(s.Panic), s.Panic)
+		}
+		if res.Violation == nil && s.Outcome == kernel.Finished && (s.ClientErr != nil || s.ServerErr != nil) && sc.Sync.Arr != "A4" && len(sc.Sync.Faults) == 0 {
+			// the session completed with an error: it must do so on every
+			// reliable ordered byte stream, in particular on the canonical
+			// transport (unbounded buffers, whole writes delivered at once)
+			canon := *sc.Sync
+			canon.Tr = Transport{CapCS: kernel.Unbounded, CapSC: kernel.Unbounded, Chunk: kernel.ChunkMax, Bias: kernel.BiasCanonical, SchedSeed: sc.Sync.Tr.SchedSeed, Seed: sc.Sync.Tr.Seed}
+			if err := prepare(&canon, lay); err == nil {
+				c := RunSyncSession(t, &canon, lay, SessionHooks{})
+				res.AddSession(c)
+				if c.Outcome == kernel.Finished && c.ClientErr == nil && c.ServerErr == nil {
+					res.Violate("schedule-dependent-failure", "fails-only-under-this-transport:"+sc.Sync.Arr, fmt.Sprintf("the session succeeds on the canonical transport but fails under capacities %d/%d chunk style %d bias %d: client %v, server %v", sc.Sync.Tr.CapCS, sc.Sync.Tr.CapSC, sc.Sync.Tr.Chunk, sc.Sync.Tr.Bias, s.ClientErr, s.ServerErr))
+					setTape(&sc.Sync.Tr, s)
+				}
+			}
 		}
 		res.NonTrivial = s.Stats.Steps > 50 || sc.Sync.Arr == "A4"
 		res.Sample = map[string]any{"mode": "term", "arr": sc.Sync.Arr, "cap": []int{sc.Sync.Tr.CapCS, sc.Sync.Tr.CapSC}, "chunk": sc.Sync.Tr.Chunk,
